@@ -141,7 +141,7 @@ def scenario(ns, inp):
     try:
         data = b"".join(KINDS[k] % (i + 1) for i, k in enumerate(inp["pipe"]))
         pieces = [data] if not inp["cut"] else [data[:inp["cut"]], data[inp["cut"]:]]
-        timed = len(pieces) > 1 and inp["lookahead"] >= 1 and inp["workers"] == 1 and inp["cut"] == len(KINDS[inp["pipe"][0]] % 1)
+        timed = len(pieces) > 1 and inp["lookahead"] >= 1 and inp["workers"] == 1 and inp["cut"] in (len(KINDS[inp["pipe"][0]] % 1), len(data) - 2)
         conn = sysm.connect(pieces[:1] if timed else pieces)
         if timed:
             # the second read's bytes arrive whenever the scheduler lets the client run
